@@ -75,7 +75,7 @@ REGISTRY: dict[str, dict] = {
     ),
     "C06": dict(
         modules=["C06", "C13", "Tables", "TranslatedFlows", "TranslatedStream"],
-        theorems=[T + "Translated.stream_triple_eq", T + "Translated.stream_quad_eq", T + "Translated.stream_enroll_eq", T + "Translated.stream_triple_flatTriples", T + "Translated.stream_triple_manual", T + "Translated.stream_triple_bounded", T + "Translated.stream_triple_graphs", T + "Translated.stream_quad_flatQuads", T + "Translated.stream_quad_manual", T + "Translated.stream_quad_datasets", *TRANSLATED_FLOWS, T + "C06_nothing_left_in_flow", T + "C06_rows_independent_of_flow", T + "C06_no_empty_frame",
+        theorems=[T + "Translated.stream_triple_eq", T + "Translated.stream_quad_eq", T + "Translated.stream_enroll_eq", T + "Translated.stream_graph_eq", T + "Translated.graph_loop_eq", T + "Translated.stream_graph_flatQuads", T + "Translated.stream_graph_graphs", T + "Translated.stream_graph_manual", T + "Translated.stream_triple_flatTriples", T + "Translated.stream_triple_manual", T + "Translated.stream_triple_bounded", T + "Translated.stream_triple_graphs", T + "Translated.stream_quad_flatQuads", T + "Translated.stream_quad_manual", T + "Translated.stream_quad_datasets", *TRANSLATED_FLOWS, T + "C06_nothing_left_in_flow", T + "C06_rows_independent_of_flow", T + "C06_no_empty_frame",
                   T + "C13_infer_flow_table"],
         table_theorems=[T + "tables_stream_new", T + "tables_flow_mk", T + "tables_flow_for_type"],
         rule="SER over the configuration lattice {Triple,Quad,Graph}Stream x 8 logical types x delimited{T,F} x flow in "
@@ -86,7 +86,7 @@ REGISTRY: dict[str, dict] = {
     ),
     "C11": dict(
         modules=["C06", "C10", "C04Bytes", "TranslatedFlows", "TranslatedStream"],
-        theorems=[T + "Translated.stream_triple_eq", T + "Translated.stream_quad_eq", T + "Translated.stream_enroll_eq", T + "Translated.bounded_frame_from_bounds", T + "Translated.flatTriples_frame_from_bounds", T + "Translated.flatQuads_frame_from_bounds",
+        theorems=[T + "Translated.stream_triple_eq", T + "Translated.stream_quad_eq", T + "Translated.stream_enroll_eq", T + "Translated.stream_graph_eq", T + "Translated.graph_loop_eq", T + "Translated.stream_graph_flatQuads", T + "Translated.stream_graph_graphs", T + "Translated.stream_graph_manual", T + "Translated.bounded_frame_from_bounds", T + "Translated.flatTriples_frame_from_bounds", T + "Translated.flatQuads_frame_from_bounds",
                   T + "Translated.flatTriples_to_stream_frame", T + "Translated.flatQuads_to_stream_frame", T + "Translated.flatTriples_init",
                   T + "Translated.flatQuads_init", T + "C11_trace_faithful", T + "C11_pending_below_frame_size", T + "C11_no_lookahead", T + "C11_parse_live",
                   T + "C10_complete_frames_delivered", T + "C10_events_prefix", T + "C10_frames_prefix"],
@@ -156,7 +156,7 @@ REGISTRY: dict[str, dict] = {
     ),
     "C07": dict(
         modules=["C07", "C06", "C07Grouped", "TranslatedFlows", "TranslatedStream"],
-        theorems=[T + "Translated.stream_triple_eq", T + "Translated.stream_quad_eq", T + "Translated.stream_enroll_eq", T + "Translated.graphs_frame_from_graph", T + "Translated.datasets_frame_from_dataset", T + "Translated.graphs_to_stream_frame",
+        theorems=[T + "Translated.stream_triple_eq", T + "Translated.stream_quad_eq", T + "Translated.stream_enroll_eq", T + "Translated.stream_graph_eq", T + "Translated.graph_loop_eq", T + "Translated.stream_graph_flatQuads", T + "Translated.stream_graph_graphs", T + "Translated.stream_graph_manual", T + "Translated.graphs_frame_from_graph", T + "Translated.datasets_frame_from_dataset", T + "Translated.graphs_to_stream_frame",
                   T + "Translated.datasets_to_stream_frame", T + "C07_known_metadata_only_first_frame", T + "C07_grouped_triples_valid", T + "C07_grouped_quads_valid", T + "C07_frames_eq_rows", T + "C07_repartition", T + "C07_grouped_one_per_frame",
                   T + "C07_grouped_concat_eq_flat", T + "C07_one_frame_per_nonempty_sink", T + "C06_rows_independent_of_flow"],
         rule="PARSE on reference-encoder row sequences re-cut into frames at EVERY single position and at random multi-cuts "
